@@ -40,8 +40,8 @@ type Case struct {
 }
 
 var spinCores = []string{"loop", "loop_cond", "cfor", "cfor_nocond", "forin_nested", "forin_map", "recursion", "loop_in_switch", "loop_nested_break", "loop_continue", "fanout_range", "fanout_recv", "fanout_recv2", "pipeline_relay", "deep_recursion", "fail_after_tick", "member_after_tick", "throw_spin", "fail_in_finally_try", "tick_sequence"}
-var blockCores = []string{"recv", "send", "recv2", "range_chan", "recv_stmt", "drain_two", "drain_three", "forward_blocked", "forward_full"}
-var wrappers = []string{"fn0", "fn2", "fn4", "fn5", "fnvar", "anon", "go_join", "go_join5", "try_body", "catch", "finally", "coalesce_l", "coalesce_r", "ternary", "deferred", "list_elem", "go_arg", "module", "if", "switch_case", "forin_once", "try_empty_catch", "try_empty_catch_e", "try_empty_finally", "deferred_implicit", "deferred_top", "deferred_twice", "return_call", "finally_after_throwing_catch", "finally_after_returning_catch", "callback", "defer_spin_behind", "defer_block_behind"}
+var blockCores = []string{"recv", "send", "recv2", "range_chan", "recv_stmt", "drain_two", "drain_three", "forward_blocked", "forward_full", "module_write_after_failed_path"}
+var wrappers = []string{"fn0", "fn2", "fn4", "fn5", "fnvar", "anon", "go_join", "go_join5", "try_body", "catch", "finally", "coalesce_l", "coalesce_r", "ternary", "deferred", "list_elem", "go_arg", "module", "if", "switch_case", "forin_once", "try_empty_catch", "try_empty_catch_e", "try_empty_finally", "deferred_implicit", "deferred_top", "deferred_twice", "return_call", "finally_after_throwing_catch", "finally_after_returning_catch", "callback", "defer_spin_behind", "defer_block_behind", "deferred_spread", "recv_ok_target"}
 
 func gen(t *rapid.T) Case {
 	c := Case{Procs: 0}
@@ -145,6 +145,10 @@ func coreSrc(core string) string {
 		return "fa = make(chan int64, 1)\nfa <- 1\nentered()\nnever <- fa"
 	case "forward_full":
 		return "fa = make(chan int64, 4)\nfb = make(chan int64, 1)\nfa <- 1\nfa <- 2\nfa <- 3\nentered()\nfor {\n fb <- fa\n}"
+	case "module_write_after_failed_path":
+		// a type path whose first element is a module and whose second element does not exist fails; writing
+		// into the module afterwards must not block (then spins until the cancellation)
+		return "module ma {\n mx = 0\n}\ntry {\n make(ma.nosuch.T)\n} catch me {\n}\nentered()\nma.mx = 1\nfor {\n tick()\n}"
 	case "recv":
 		return "entered()\nbv = <-never"
 	case "send":
@@ -174,7 +178,9 @@ func wrap(w string, body string, level int, tail bool) string {
 		sent = ""
 	}
 	def := func(params string) string {
-		return "func " + fn + "(" + params + ") {\n" + indent(body) + sent + "\n return 1\n}\n"
+		// warmup is 0 except during the earlier run of a Stale case, which calls the function once (it returns
+		// at once) before the cancellable run calls it for real
+		return "func " + fn + "(" + params + ") {\n if warmup == 1 {\n  return 0\n }\n" + indent(body) + sent + "\n return 1\n}\n"
 	}
 	switch w {
 	case "fn0":
@@ -243,6 +249,12 @@ func wrap(w string, body string, level int, tail bool) string {
 		return def("") + "func() {\n try {\n  throw 1\n } catch e {\n  return 3\n } finally {\n  " + fn + "()\n }\n}()" + sent
 	case "callback":
 		return def("") + "call(" + fn + ")" + sent
+	case "deferred_spread":
+		// a deferred call of a variadic script function with a spread list
+		return def("a...") + "func() {\n defer " + fn + "([1, 2]...)\n return 2\n}()" + sent
+	case "recv_ok_target":
+		// the core runs while the TARGET of the ok flag of a two-value receive is being evaluated
+		return def("") + "okch = make(chan int64, 1)\nokch <- 1\nokm = {}\nokv = 0\nokv, okm[" + fn + "()] = <-okch" + sent
 	case "defer_spin_behind":
 		// the frame that is interrupted has registered a deferred SCRIPT function that would spin: it runs
 		// under the same cancelled context and ends at its first statement
@@ -372,6 +384,7 @@ func runCase(c Case, bound time.Duration) result {
 			doCancel()
 		}
 	})
+	e.Define("warmup", int64(0))
 	e.Define("p", func(id int64) int64 {
 		if cancelled.Load() {
 			postP.Add(1)
@@ -382,7 +395,12 @@ func runCase(c Case, bound time.Duration) result {
 	if c.Stale {
 		if defs, rest, ok := sourceParts(c); ok {
 			// an earlier run of the same environment defines the function
-			if _, err := vm.Execute(e, nil, defs); err != nil {
+			pre := defs
+			if call := strings.SplitN(rest, "\n", 2)[0]; strings.HasPrefix(call, fmt.Sprintf("w%d(", len(c.Wrappers))) && strings.HasSuffix(call, ")") {
+				// ... and calls it once, under its own (background) context
+				pre = "warmup = 1\n" + defs + call + "\nwarmup = 0\n"
+			}
+			if _, err := vm.Execute(e, nil, pre); err != nil {
 				res.infra = "definition run failed: " + err.Error()
 				return res
 			}
